@@ -124,6 +124,29 @@ fn mypid_main<S: WriteAll + GetPid>(env: &mut Env<S>, _args: Vec<Field>) -> BFut
     })
 }
 
+/// `fdl` - prints the open descriptors below 24 of the calling process as
+/// `fdl: 0 1 2 10c` (c = close-on-exec), found with fcntl(F_GETFD); works on
+/// both systems. Leaves `$?` unchanged.
+fn fdl_main<S: WriteAll + yash_env::system::Fcntl>(env: &mut Env<S>, _args: Vec<Field>) -> BFut<'_> {
+    Box::pin(async move {
+        let mut s = String::from("fdl:");
+        for fd in 0..24 {
+            if let Ok(flags) = env.system.fcntl_getfd(Fd(fd)) {
+                s.push_str(&format!(
+                    " {fd}{}",
+                    if flags.contains(yash_env::system::FdFlag::CloseOnExec) { "c" } else { "" }
+                ));
+            }
+        }
+        s.push('\n');
+        let st = env.exit_status;
+        match write_out(env, Fd::STDOUT, s.as_bytes()).await {
+            ExitStatus::SUCCESS => BResult::new(st),
+            other => BResult::new(other),
+        }
+    })
+}
+
 /// `nap MS` - sleeps for MS simulated milliseconds.
 fn nap_main<S: Sleep>(env: &mut Env<S>, args: Vec<Field>) -> BFut<'_> {
     let ms: u64 = args.first().and_then(|f| f.value.parse().ok()).unwrap_or(1);
@@ -411,9 +434,10 @@ fn selfkill_main<S: SendSignal + Signals>(env: &mut Env<S>, args: Vec<Field>) ->
 /// Probes that work on any system (also used on the real kernel).
 pub fn generic_probes<S>() -> Vec<(&'static str, Builtin<S>)>
 where
-    S: WriteAll + Write + Read + GetPid + Sleep + Open + Close + SendSignal + Signals + 'static,
+    S: WriteAll + Write + Read + GetPid + Sleep + Open + Close + SendSignal + Signals + yash_env::system::Fcntl + 'static,
 {
     vec![
+        ("fdl", Builtin::new(Type::Mandatory, fdl_main)),
         ("selfkill", Builtin::new(Type::Mandatory, selfkill_main)),
         ("recs", Builtin::new(Type::Mandatory, recs_main)),
         ("recsink", Builtin::new(Type::Mandatory, recsink_main)),
@@ -480,7 +504,12 @@ fn fds_main(env: &mut Env<VS>, _args: Vec<Field>) -> BFut<'_> {
             s.push_str(&format!(" {fd}{}", if cloexec { "c" } else { "" }));
         }
         s.push('\n');
-        BResult::new(write_out(env, Fd::STDOUT, s.as_bytes()).await)
+        // leaves `$?` unchanged (unless the line cannot be written)
+        let st = env.exit_status;
+        match write_out(env, Fd::STDOUT, s.as_bytes()).await {
+            ExitStatus::SUCCESS => BResult::new(st),
+            other => BResult::new(other),
+        }
     })
 }
 
